@@ -638,7 +638,8 @@ nd_linear, nd_nearest = _nd_contract(False), _nd_contract(True)
 
 CONTRACTS = [enclosing, weights, data_interpolator, nd_linear, nd_nearest]
 import contracts.C13_wiring as _W          # dataset- and spectrum-level wiring above the kernels
-CONTRACTS = CONTRACTS + _W.CONTRACTS
+import contracts.C13_spectrum as _S
+CONTRACTS = CONTRACTS + _W.CONTRACTS + _S.CONTRACTS
 import contracts.C13_bounded as _B
 BOUNDED = [Bounded("spectrum_interpolation", _B.spectrum_interpolation), Bounded("dataset_axes_rank_1_to_4", _B.dataset_axes,
                    "ranks 1..4, every axis position, passive sizes 1..3 (unequal), pass-through, operands unmodified - through interpolate_dataset_along_axis"),
